@@ -169,7 +169,7 @@ def requirements(tier):
         "abs:body-centre": 200 * k, "cross:evaluated": 100 * k, "cross:judged": 60 * k, "cross:judged-real-eop": 50 * k,
         "station:south": 50 * k, "station:west": 50 * k, "station:high-lat": 100 * k, "station:equatorial-axes": 5 * k,
         "orbit-frame:None": 100 * k, "orbit-frame:QSW": 100 * k, "orbit-frame:TNW": 100 * k,
-        "orbit-parent:EME2000": 100 * k, "orbit-parent:MOD": 100 * k, "orbit-parent:TEME": 100 * k,
+        "static-lof:evaluated": 100 * k, "orbit-parent:EME2000": 100 * k, "orbit-parent:MOD": 100 * k, "orbit-parent:TEME": 100 * k,
         "body-frame:Moon": 100 * k, "body-frame:Sun": 100 * k,
         "date:day-start": 10 * k, "date:day-end": 10 * k, "date:eqeq-switch": 5 * k, "date:table-edge": 8 * k,
         "branch:eqeq-kinematic-terms:on": 20 * k, "branch:eqeq-kinematic-terms:off": 20 * k,
@@ -236,16 +236,16 @@ def setup(ctx, job):
     st["body_prop"] = {nm: solarsystem.get_body(nm).propagator for nm in ("Moon", "Sun")}
 
     # hook on Frame.transform: source object untouched, result labelled with the target frame / same form
-    pending = {}
+    pending = []  # a stack: conversions nest (an orbit-attached frame converts its own reference state)
 
     def t_pre(a, k):
         orbit = a[1]
-        pending["src"] = (probe.arr(orbit), orbit.frame, orbit.form, orbit.date)
+        pending.append((probe.arr(orbit), orbit.frame, orbit.form, orbit.date))
 
     def t_post(a, k, res):
         ctx.count("hook:Frame.transform")
         orbit, new_frame = a[1], a[2]
-        s_arr, s_frame, s_form, s_date = pending["src"]
+        s_arr, s_frame, s_form, s_date = pending.pop()
         same = np.array_equal(probe.arr(orbit), s_arr) and orbit.frame is s_frame and orbit.form is s_form and orbit.date is s_date
         if not same:
             ctx.violation("C02/transform-mutates-source", {"from": str(s_frame), "to": str(new_frame), "before": s_arr, "after": probe.arr(orbit)},
@@ -411,6 +411,50 @@ def make_frames(ctx, job, idx, rng, st, day, sec):
         ctx.count("orbit-parent:" + pname)
         descr["orbits"].append([pname, orientation, [float(v) for v in x0], dt0])
     return out, descr
+
+
+def static_lof_monitor(ctx, idx, rng, st, date, mu, wit):
+    """Orbit-attached QSW/TNW frame whose reference is a plain StateVector (no propagator) expressed in a frame
+    OTHER than the parent of the local orbital frame.  History monitor: the same conversion asked twice must give
+    the same answer, the round trip is the identity, a detour through ITRF changes nothing, the reference state sits
+    at the origin -- and the caller's reference object is left untouched."""
+    from beyond.frames.frames import orbit2frame
+    from beyond.orbits import StateVector
+
+    src = ("TEME", "GCRF", "MOD", "TOD", "CIRF")[idx % 5]
+    ori = ("QSW", "TNW")[(idx // 5) % 2]
+    x0, _ = gen_state(rng, mu, cls="leo", bound=True)
+    ref = StateVector(list(x0), date, "cartesian", src)
+    fp0 = probe.fingerprint(ref)
+    name = f"L{idx}s{st.setdefault('static_n', 0)}"
+    st["static_n"] += 1
+    w = dict(wit, reference_frame=src, orientation=ori, x_ref=[float(v) for v in x0])
+    try:
+        orbit2frame(name, ref, orientation=ori)  # default parent: EME2000
+        chaser = np.array(x0, dtype=float) + np.array([rng.uniform(-200, 200) for _ in range(3)] + [rng.uniform(-1, 1) for _ in range(3)])
+        sv_e = StateVector(list(chaser), date, "cartesian", src).copy(frame="EME2000")
+        e0 = probe.arr(sv_e)
+        first = probe.arr(sv_e.copy(frame=name))
+        second = probe.arr(sv_e.copy(frame=name))
+        back = probe.arr(sv_e.copy(frame=name).copy(frame="EME2000"))
+        via = probe.arr(sv_e.copy(frame="ITRF").copy(frame=name))
+        origin = probe.arr(StateVector(list(x0), date, "cartesian", src).copy(frame=name))
+    except Exception as exc:
+        ctx.violation("C02/static-lof-frame-raises", dict(w, exc=repr(exc)), f"static-reference {ori} frame: {exc!r}")
+        return
+    ctx.count("static-lof:evaluated")
+    ctx.count("static-lof:reference-in-" + src)
+    rn = float(np.linalg.norm(e0[:3]))
+    tol = 1e-5 + 1e-12 * rn  # algebraic tolerance of the design (probed worst 6e-9 m among Earth-centred frames)
+    ctx.expect(bool(np.array_equal(first, second)), "C02/static-lof-repeated-conversion-differs", dict(w, first=first, second=second),
+               "the same conversion into a static-reference local orbital frame gives two different answers")
+    ctx.resid("static-lof:roundtrip", float(np.linalg.norm(back[:3] - e0[:3])), tol, key="C02/roundtrip-not-identity:static-lof", witness=w)
+    ctx.resid("static-lof:via-itrf", float(np.linalg.norm(via[:3] - first[:3])), tol, key="C02/triple-path-dependent:static-lof", witness=w)
+    ctx.resid("static-lof:reference-at-origin", float(np.linalg.norm(origin[:3])), tol, key="C02/orbit-frame-centre-offset:static-lof", witness=w)
+    ctx.resid("static-lof:separation-preserved", abs(float(np.linalg.norm(first[:3])) - float(np.linalg.norm(chaser[:3] - np.array(x0[:3])))), tol,
+              key="C02/linear-part-not-isometry:static-lof", witness=w)
+    ctx.expect(probe.fingerprint(ref) == fp0, "C02/conversion-modifies-reference-state-of-frame", dict(w, now_frame=str(ref.frame), now_form=str(ref.form)),
+               "converting into an orbit-attached frame modified the caller's reference StateVector")
 
 
 # =================================================================================================== conversions
@@ -888,6 +932,7 @@ def run_case(ctx, job, idx, rng, st):
     mu = st["earth"]["mu"]
 
     dyn, descr = make_frames(ctx, job, idx, rng, st, day, sec)
+    static_lof_monitor(ctx, idx, rng, st, date, mu, wit)
     for b in st["bodies"]:
         ctx.count("body-frame:" + b.name)
     frames = st["builtin"] + dyn + st["bodies"]
